@@ -19,8 +19,8 @@ POSN = ['a', 'b']
 KWON = ['d', 'e']
 KWNAMES = ['a', 'b', 'd', 'e', 'z']          # z is never a parameter
 DEFAULT = {'a': 51, 'b': 52, 'd': 54, 'e': 55}
-EXPL_KW = {'a': 31, 'b': 32, 'd': 34, 'e': 35, 'z': 36}
-MAP_KW = {'a': 41, 'b': 42, 'd': 44, 'e': 45, 'z': 46}
+EXPL_KW = {'a': 31, 'b': 32, 'd': 34, 'e': 35, 'z': 36, 's': 37, 'k': 38}
+MAP_KW = {'a': 41, 'b': 42, 'd': 44, 'e': 45, 'z': 46, 's': 47, 'k': 48}
 EXPL_POS = [11, 12, 13]
 STAR_POS = [21, 22]
 CALLS_PER_PROGRAM = 500
@@ -268,6 +268,22 @@ def full_calls(full_star):
     return out
 
 
+def varname_calls():
+    """Keywords named like the function's own *s / **k parameters: they are ordinary unknown keywords (collected by **k, else TypeError),
+    never the var-positional or var-keyword slot itself."""
+    out = []
+    i = 0
+    for npos in range(4):
+        for st in (None, ('list', 1), ('gen', 2), ('tuple', 0)):
+            for kws in subsets(['s', 'k', 'a', 'z']):
+                for mapk in [None] + subsets(['s', 'k', 'd']):
+                    if not (set(kws) | set(mapk or ())) & {'s', 'k'}:
+                        continue
+                    i += 1
+                    out.append(CallShape(npos, kws, st, mapk, kwfirst=(i % 2 == 0) if (kws and st) else False))
+    return out
+
+
 # ------------------------------------------------------------------------------------------------
 # program assembly
 
@@ -306,6 +322,8 @@ def build_py_programs(tier, r):
             else:
                 calls = r.sample(nodup, 450) + r.sample(dup, 50)
             plan.append((s, calls))
+    vn = varname_calls()
+    plan = [(s, list(calls) + (vn if tier == 'thorough' and s.kind == 'def' else r.sample(vn, 120))) for s, calls in plan]
     for si, (s, calls) in enumerate(plan):
         hdr = s.header()
         for off in range(0, len(calls), CALLS_PER_PROGRAM):
